@@ -44,17 +44,17 @@ def run(ctx):
     if not quick:
         # (b) exhaustive: every sharing shape (same id / different ids on one connection) x every combination of Start outcomes
         s, n = sc.generate(ctx, "start-all", sc.gen_cfg("start-all", MaxEvents=0, MaxTerm=1, MaxSrcTerm=0, StartModes="StartAll", CfgOK="CfgStart", SeqSetup="FALSE"),
-                           rng, cap=12000, timeout=3000)
+                           rng, cap=8000, timeout=3000)
         batches.append(("start-all", s))
         totals["start-all"] = n
     # (c) sampled: plus the source finishing (Complete / Error / Done, also from a second goroutine of a stale source), one event, 2 client-side terminators
     s, n = sc.generate(ctx, "sim", sc.gen_cfg("sim", MaxEvents=1, MaxTerm=2, MaxSrcTerm=1, MaxHB=0, UseD="TRUE", StartModes="StartAll", CfgOK="CfgAll", SeqSetup="FALSE"),
-                       rng, simulate=2600 if quick else 16000, depth=400, timeout=2400, cap=1000 if quick else None)
+                       rng, simulate=2600 if quick else 10000, depth=400, timeout=2400, cap=1000 if quick else None)
     batches.append(("sim", s))
     totals["sim"] = n
     # (d) sampled: sequential set-up, then events + heartbeat + terminators (clean-up after ordinary histories)
     s, n = sc.generate(ctx, "sim-seq", sc.gen_cfg("sim-seq", MaxEvents=2, MaxTerm=2, MaxSrcTerm=1, MaxHB=1, UseD="FALSE", StartModes="StartAll", CfgOK="CfgAll", SeqSetup="TRUE"),
-                       rng, simulate=1000 if quick else 6000, depth=400, timeout=2400, cap=400 if quick else None)
+                       rng, simulate=1000 if quick else 4000, depth=400, timeout=2400, cap=400 if quick else None)
     batches.append(("sim-seq", s))
     totals["sim-seq"] = n
     # ---- 3./4. replay + validate -------------------------------------------------------------------------------
@@ -77,7 +77,8 @@ def run(ctx):
         "samples": tot["samples"][:3],
         "unrealised_schedules": tot["unreal"],
         "invariants_on_traces": sc.INVS[PROP],
-        "exhaustive": not quick,
+        "exhaustive": False,
+        "exhaustive_families": ["start-ok", "start-ctx", "start-fail"] if not quick else [],
     })
     ctx.assumptions += [
         "schedules are forced at the verif hook points outside the locks and at the harness gates (Flush); code between two events of one goroutine is atomic with respect to the state it touches (hooks sit inside the protecting lock)",
